@@ -29,7 +29,7 @@ ATTRS = ["id", "name", "unit", "flag"]
 def gen_elem(rng, depth, tag=None):
     e = {"tag": tag or rng.choice(TAGS), "attrs": [], "text": None, "children": []}
     for k in rng.sample(ATTRS, rng.choice([0, 0, 1, 2])):
-        e["attrs"].append([k, rng.choice(["1", "abc", "", "true", "x y", "2.5"])])
+        e["attrs"].append([k, rng.choice(["1", "abc", "", "true", "x y", "2.5", "TRUE", "False", "TrueGrain oak", "Falsework Yard", "NULL", "Mixed Case", "é"])])
     if depth > 0 and rng.random() < 0.55:
         e["children"] = [gen_elem(rng, depth - 1) for _ in range(rng.randint(1, 4))]
         if rng.random() < 0.3:
